@@ -3,7 +3,7 @@ import hir
 import hirpp
 from core import AnchorMissing, Unrecognised, loc
 from rules import common_parse as cp
-from rules import scanner
+from rules import scanner, stripstream
 from spec import vt500
 
 META = {
@@ -106,7 +106,7 @@ def run(ctx):
     # the never-colour stream's clause: what it delivers is the adapter's output only if the short-write path replays correctly
     from rules import stripstream
     rep.guarded("W1", "anstream::strip::write", lambda: stripstream.rule_W1_W3(facts, rep))
-    for r, n in (("table", 16), ("keep", 17), ("S1", 7), ("S2", 8), ("S3", 3), ("S4", 3), ("S5", 12), ("reach", 12), ("W1", 4)):
+    for r, n in (("table", 16), ("keep", 17), ("S1", 7), ("S2", 8), ("S3", 3), ("S4", 3), ("S5", 12), ("reach", 18), ("W1", 4)):
         rep.floor(r, n)
 
 
@@ -229,18 +229,5 @@ def rule_reach(facts, rep):
                     hir.simp(e["e"])["name"] == fld and hir.is_local(hir.simp(e["e"])["e"], "self")
         rep.check(ok, "reach", b["path"], "borrows-own-state-mutably",
                   f"the per-chunk iterator holds &mut self.{{{','.join(fields)}}} (no copy of the carried state)", loc(b))
-    # the strip stream hands the inner writer only pieces yielded by StripBytes::strip_next
-    for fn in ("write", "write_all"):
-        b = facts.body("anstream", "anstream::strip::" + fn)
-        rep.fn(b["path"])
-        loops = [hir.for_loop(n) for n in hir.walk(b["hir"]) if n.get("k") == "match" and n.get("src") == "ForLoopDesugar"]
-        loops = [l for l in loops if l is not None]
-        ok = len(loops) == 1
-        if ok:
-            pat, it, body = loops[0]
-            ok = pat.get("k") == "pbind" and hir.is_call(it, "StripBytes::strip_next") and hir.is_local(it["args"][1], "buf")
-            var = pat.get("name")
-            writes = [n for n in hir.walk(b["hir"]) if hir.is_call(n, "std::io::Write::write", "std::io::Write::write_all")]
-            ok = ok and len(writes) == 1 and hir.is_local(writes[0]["args"][0], "raw") and hir.is_local(writes[0]["args"][1], var)
-        rep.check(ok, "reach", b["path"], "inner-writer-gets-only-stripped-pieces",
-                  "the only data handed to the inner writer is the loop variable of `for printable in state.strip_next(buf)`", loc(b))
+    # the strip stream hands the inner writer only pieces yielded by StripBytes::strip_next, on every path
+    stripstream.rule_through(facts, rep, "reach")
